@@ -88,7 +88,7 @@ def _gen_terms(ch: core.Chooser, nv: int, nterms: int, small: bool = False) -> D
     return {"exponents": exps, "coefficients": [ch.choice([-3, -2, -1, 1, 2, 3]) for _ in exps]}
 
 
-STAGES = ["struct", "align", "mul", "pow", "deriv", "eval1", "swap", "pickle", "text", "text"]
+STAGES = ["struct", "align", "mul", "pow", "deriv", "eval1", "evalpart", "swap", "pickle", "text", "text"]
 
 
 def generate(rs: int, tier: str, index: int) -> dict:
@@ -126,6 +126,11 @@ def generate(rs: int, tier: str, index: int) -> dict:
                 st["n"] = c.choice([65536, 65537, 70000, 4099])  # only used on single-term bases whose result is unrepresentable
         if kind == "struct":
             st["permute"] = c.chance(0.5)  # a multi-field index of the raw view: field order differs from memory order
+        if kind == "evalpart":
+            # numbers for some indeterminates, the others stay: terms that differed only there must merge
+            k = c.between(1, nv - 1) if nv >= 2 else 0
+            st["vars"] = sorted(c.sample(list(range(nv)), k)) if k else []
+            st["vals"] = [c.choice([1, 1, 2]) for _ in st["vars"]]
         if kind == "deriv":
             st["var"] = c.below(nv)
             st["by"] = c.choice(["name", "index", "poly"])
@@ -139,6 +144,15 @@ def generate(rs: int, tier: str, index: int) -> dict:
                        "fault": c.choice([None, None, None, "write"]), "u": c.u64(),
                        "encoding": c.choice([None, None, None, "latin-1", "utf-8", "ascii", "utf-16"])})
         stages.append(st)
+    first_part = next((st for st in stages if st["stage"] == "evalpart" and st["vars"]), None)
+    if first_part is not None and ch.sub("twin").chance(0.7):
+        ct = ch.sub("twin")
+        base = list(start["exponents"][ct.below(len(start["exponents"]))])
+        for i in first_part["vars"]:
+            base[i] = base[i] + ct.between(1, 3) if ct.chance(0.7) else base[i]
+        if base not in start["exponents"]:
+            start["exponents"].append(base)
+            start["coefficients"].append(ct.choice([1, 2, 3]))
     return {"property": ID, "run_seed": rs, "tier": tier, "prelude": prelude.gen_prelude(core.Chooser(rs, "prelude")), "steps": [{"id": 0, "k": "journey", "names": names, "start": start, "stages": stages}]}
 
 
@@ -347,6 +361,19 @@ class Runner:
                 elif kind == "eval1":
                     res = p(*([1] * nv))
                     scalar_want = sum(m.values())
+                elif kind == "evalpart":
+                    if not st.get("vars") or max((k[i] for k in m for i in range(nv) if i not in st["vars"]), default=0) > 600:
+                        continue  # a kept indeterminate is raised to its power by repeated multiplication
+                    vals = [v if all(k[i] <= 40 for k in m) else 1 for i, v in zip(st["vars"], st["vals"])]
+                    res = p(**{names[i]: v for i, v in zip(st["vars"], vals)})
+                    want = {}
+                    for k, c in m.items():
+                        key = list(k)
+                        for i, v in zip(st["vars"], vals):
+                            c = c * v ** k[i]
+                            key[i] = 0
+                        want[tuple(key)] = want.get(tuple(key), 0) + c
+                    want = {k: c for k, c in want.items() if c != 0}
                 elif kind == "swap":
                     if nv < 2 or big(m) > 300:
                         continue  # substitution raises the symbol to the power by repeated multiplication
@@ -418,7 +445,7 @@ class Runner:
                     self.violate("monomial-set", kind, sid, f"after stage {idx} {kind} the operand itself reads {still}, it was {m}", {"stage": kind, "operand": True})
                     return
                 continue
-            if kind in ("mul", "pow", "deriv", "swap") and isinstance(res, numpoly.ndpoly) and want:
+            if kind in ("mul", "pow", "deriv", "swap", "evalpart") and isinstance(res, numpoly.ndpoly) and want:
                 m = want
                 p = _build(m, names) if tuple(res.names) != tuple(names) else res
 
